@@ -42,8 +42,8 @@ theorem C05_succeeded_only_if_ran (total : Option Nat) (runner : Runner) (tcs : 
   Scrut.Exec.succeeded_only_if_ran total runner tcs i h
 
 /-! Non-vacuity -/
-example : validate ⟨some 3, .stderr, none, none, true⟩ ⟨.code 3, false, true⟩ = .ok := by decide
-example : validate ⟨none, .stdout, none, none, true⟩ ⟨.unknown, true, true⟩ = .internal := by decide
+example : validate ⟨some 3, .stderr, none, none, true, 0⟩ ⟨.code 3, false, true⟩ = .ok := by decide
+example : validate ⟨none, .stdout, none, none, true, 0⟩ ⟨.unknown, true, true⟩ = .internal := by decide
 
 /-! ## through the composition: `scrut test` on one document (`Model/TestRun.lean`) -/
 
